@@ -15,6 +15,8 @@ From Verif Require Import Lib.Base Lib.Dec Lib.PyStr Gen.PyChars
   Repro.Doc Repro.StructSort Repro.Struct Repro.StructSpec Repro.StructLemmas Repro.StructSortProofs
   Repro.StructProofsPN Repro.StructProofsPD1 Repro.StructProofsPD2 Repro.StructProofsPD3
   Repro.StructProofsPD4 Repro.StructProofs.
+From Verif Require Import Repro.DocInv Repro.Abs Repro.ParseDumpAbs Repro.ParseDumpAbsEdits
+  Repro.ParseDumpAbsStruct.
 
 (** * 1. byname_consistent
 
@@ -151,16 +153,15 @@ Theorem C10_newline_is_one_lf_at_the_end :
     \/ concat (map field_text (nl fs)) = (concat (map field_text fs) ++ [LF])%list.
 Proof. exact nl_text. Qed.
 
-(** * 4. insert_append_no_merge (partial)
+(** * 4. insert_append_no_merge
 
     Full statement (DESIGN §4): abs (parse (dump (append f p))) has one more paragraph, equal to p;
-    the same for insert i.  That needs the printer/parser theorem of C01/C05
-    (parse (dump d) shows the paragraphs of d for well-separated d), which is not available here.
-    Proved: the new paragraph is an item of its own, placed where the reference permits (at the end
-    after 0-2 newline tokens with the missing final newline of the document supplied / between
-    paragraph i-1 and paragraph i with a newline token on either side), nothing else changes.  That
-    the separators chosen suffice for a fresh parse is checked on every generated case by [holds]
-    (fresh parse = [sread]), not proved. *)
+    the same for insert i.  It is theorem [C10_insert_append_no_merge] below (via the
+    printer/parser theorem of C05, Repro/ParseDumpAbs*.v).  The partial form is kept: on the larger
+    domain [wf_doc] (no demand on the texts) the new paragraph is an item of its own, placed where
+    the reference permits (at the end after 0-2 newline tokens with the missing final newline of
+    the document supplied / between paragraph i-1 and paragraph i with a newline token on either
+    side), nothing else changes. *)
 Theorem C10_insert_append_no_merge_partial :
   forall d p i,
     wf_doc d = true -> wf_parab p = true ->
@@ -173,6 +174,52 @@ Proof.
   - exact (proj1 (f_append_refines d p Hwf Hp)).
   - intros Hi. exact (proj1 (f_insert_refines d i p Hwf Hp Hi)).
 Qed.
+
+(** insert_append_no_merge, full.  [py_reparse] = the parser model of C01 (Token.v, Parse.v) in
+    accepting mode on the lines of the text, abstracted by [Abs.abs_of_tree] (compared with the
+    implementation's parse by the correspondence check of C05).  [fields_of d] = the paragraphs of
+    [d] as field lists (comment, name, rest texts), in order.
+    Hypotheses (all boolean): the fields of [d] are well-formed ([para_wf]), only the very end of [d]
+    may lack its newline ([lines_ok]), the item structure of [d] is a parser's ([doc_canon]: in
+    particular paragraphs are separated), and — ADDED — [tail_ok]: free text at the very end of
+    the document (a comment or whitespace item) ends with a newline (for an unterminated trailing
+    comment line the code glues its newline token to it, and the items of the model document no
+    longer are the parser's); the new paragraph is non-empty, its fields are well-formed and
+    each ends with a newline (what new_empty_paragraph() + p[k] = v builds: [C10_built_paragraph_ok]).
+    Repeated field names are allowed.
+    Conclusion: the fresh parse of the new dump succeeds and
+      append:   its paragraphs are those of [d] — the last one with its final newline supplied if
+                it lacked it ([map_last ensure_item]) — followed by one more, equal to [p];
+      insert i: for i = 0 or i < number of paragraphs: the paragraphs of [d] with [p] as
+                paragraph number i, nothing else changed; otherwise as append.
+    Nothing is merged, split or lost. *)
+Theorem C10_insert_append_no_merge :
+  forall d p i,
+    forallb para_wf (paras d) = true -> lines_ok d = true -> doc_canon d = true ->
+    tail_ok d = true ->
+    para_wf p = true -> fields_closed (para_fields p) = true -> para_fields p <> [] ->
+    (exists dd, py_reparse (dump (f_append d p)) = Ok dd
+                /\ dd = norm_doc (squash (f_append d p))
+                /\ fields_of dd = (fields_of (map_last ensure_item d) ++ [para_fields p])%list)
+    /\ ((0 <=? i)%Z = true ->
+        exists dd, py_reparse (dump (f_insert d i p)) = Ok dd
+                   /\ dd = norm_doc (squash (f_insert d i p))
+                   /\ fields_of dd =
+                      let L := fields_of d in
+                      let n := Z.to_nat i in
+                      if (i =? 0)%Z || (n <? List.length L)%nat
+                      then (firstn n L ++ para_fields p :: skipn n L)%list
+                      else (fields_of (map_last ensure_item d) ++ [para_fields p])%list).
+Proof.
+  intros d p i H1 H2 H3 H4 H5 H6 H7. split.
+  - now apply append_no_merge.
+  - intros Hi. now apply insert_no_merge.
+Qed.
+
+Theorem C10_built_paragraph_ok :
+  forall kvs p, build_para kvs (PN []) = Ok p -> kvs <> [] ->
+    para_wf p = true /\ fields_closed (para_fields p) = true /\ para_fields p <> [].
+Proof. exact built_para_ok. Qed.
 
 (** * Non-vacuity
 
@@ -228,6 +275,55 @@ N: x
 ".
 Proof. vm_compute. repeat split. Qed.
 
+(** the hypotheses are satisfiable, with and without a final newline, and the conclusion is what
+    the computation gives *)
+Example C10_insert_append_nonvacuous :
+  let s (x : String.string) := Lib.Dec.dec x in
+  let F c n r := mkF (s c) (s n) (s r) in
+  let d := [Other OComment (s "# head" ++ [LF])%list; Other OWs [LF];
+            Para (from_kvpairs [F "" "X" ": 1
+"; F "# c
+" "A" ": 2
+"; F "" "a" ": 3
+ cont
+"]);
+            Other OWs [LF];
+            Para (from_kvpairs [F "" "B" ": b
+"; F "" "C" ": c"])] in
+  match build_para [(s "N", s "x")] (PN []) with
+  | Ok p =>
+      forallb para_wf (paras d) = true /\ lines_ok d = true /\ doc_canon d = true /\ tail_ok d = true
+      /\ para_wf p = true /\ fields_closed (para_fields p) = true
+      /\ fields_of d = [[F "" "X" ": 1
+"; F "# c
+" "A" ": 2
+"; F "" "a" ": 3
+ cont
+"]; [F "" "B" ": b
+"; F "" "C" ": c"]]
+      /\ option_map fields_of (match py_reparse (dump (f_append d p)) with Ok x => Some x | Err _ => None end)
+         = Some [[F "" "X" ": 1
+"; F "# c
+" "A" ": 2
+"; F "" "a" ": 3
+ cont
+"]; [F "" "B" ": b
+"; F "" "C" ": c
+"]; [F "" "N" ": x
+"]]
+      /\ option_map fields_of (match py_reparse (dump (f_insert d 1 p)) with Ok x => Some x | Err _ => None end)
+         = Some [[F "" "X" ": 1
+"; F "# c
+" "A" ": 2
+"; F "" "a" ": 3
+ cont
+"]; [F "" "N" ": x
+"]; [F "" "B" ": b
+"; F "" "C" ": c"]]
+  | Err _ => False
+  end.
+Proof. vm_compute. repeat split. Qed.
+
 Print Assumptions C10_byname_consistent.
 Print Assumptions C10_byname_is_filtered_order.
 Print Assumptions C10_name_index_is_ith_occurrence.
@@ -241,3 +337,5 @@ Print Assumptions C10_reorder_errors_unchanged.
 Print Assumptions C10_newline_only_when_missing.
 Print Assumptions C10_newline_is_one_lf_at_the_end.
 Print Assumptions C10_insert_append_no_merge_partial.
+Print Assumptions C10_insert_append_no_merge.
+Print Assumptions C10_built_paragraph_ok.
